@@ -107,6 +107,12 @@ def build(spec):
         for it in spec["items"]:
             items.append(_chain_item(it, dim, r, f32))
         return D.Transformed(base, B.Chain(items))
+    if kind == "nested_chain":
+        # Chain([ first..., Chain([inner...]), last... ]) — exercised together with the
+        # 'merge_chains' post-freeze operation (freeze a sub-chain, flatten, train)
+        mk = lambda its: [_chain_item(it, dim, r, f32) for it in its]  # noqa: E731
+        inner = B.Chain(mk(spec["inner"]))
+        return D.Transformed(base, B.Chain([*mk(spec["first"]), inner, *mk(spec["last"])]))
     if kind == "scan_vspline":
         # shape of triangular_spline_flow without the (unconstructible) weight normalisation:
         # wrappers created under TWO levels of vmap (layers x dims)
@@ -159,6 +165,11 @@ def build(spec):
             from flowjax.wrappers import NonTrainable
 
             tr = eqx.tree_at(lambda a: a.loc, B.Affine(jnp.asarray(0.25), jnp.asarray(1.5)), replace_fn=NonTrainable)
+        if spec.get("transformer") == "affine_frozen_scale_node":
+            # node-wise freezing: the wrapper holds another wrapper (BijectionReparam), not a bare array
+            from flowjax.wrappers import NonTrainable
+
+            tr = eqx.tree_at(lambda a: a.scale, B.Affine(jnp.asarray(0.0), jnp.asarray(1.5)), replace_fn=NonTrainable)
         if spec.get("transformer") == "spline_frozen_derivs":
             from flowjax.wrappers import non_trainable
 
